@@ -212,6 +212,7 @@ def request_line(case, sig):
     return sexp.dumps(["infer", bool(case["forbid"]), FUEL,
                        [[sexp.enc(n), s_ty(T)] for n, T in sorted(case["vars"].items())],
                        [[sexp.enc(n), s_ty(T)] for n, T in sorted(case["svars"].items())],
+                       [[sexp.enc(n), s_ty(T)] for n, T in sorted(case.get("defs", {}).items())],
                        [[sexp.enc(n), s_ty(sig[n])] for n in names if n in sig],
                        s_tm(case["skel"])])
 
@@ -229,24 +230,37 @@ def parse_model(line):
 
 # ====================================================================== implementation side
 def classify_exc(e):
+    """'tie:<kind>' for type_infer's own TypeInferenceException, 'noconst' for TheoryException, 'crash:<Class>'
+    otherwise.  Only the part before the colon (the exception CLASS) is ever used to judge or to compare with the
+    model; <kind> is read off the message text and feeds the histogram only, so rewording a message changes nothing."""
     n = type(e).__name__
     if n == "TypeInferenceException":
-        msg = e.err
+        msg = str(getattr(e, "err", ""))
         if msg.startswith("Infinite loop"):
-            return "occurs"
+            return "tie:occurs"
         if msg.startswith("Unable to unify"):
-            return "clash"
+            return "tie:clash"
         if "is not of function type" in msg.split("\n")[0]:
-            return "notfun"
+            return "tie:notfun"
         if msg.startswith("Unspecified type"):
-            return "unspecified"
-        return "tie-other"
+            return "tie:unspecified"
+        if "reserved" in msg.split("\n")[0]:
+            return "tie:reserved"
+        return "tie:other"
     if n == "TheoryException":
         return "noconst"
     return "crash:" + n
 
 
-OWN_ERRORS = {"occurs", "clash", "notfun", "unspecified", "noconst", "tie-other"}
+def err_class(cls):
+    return cls.split(":")[0]
+
+
+def is_own_error(cls):
+    return err_class(cls) in ("tie", "noconst")
+
+
+MODEL_TIE = {"occurs", "clash", "notfun", "unspecified", "reserved"}
 
 
 def run_impl(case, limit):
@@ -258,7 +272,8 @@ def run_impl(case, limit):
     t = tm_obj(case["skel"])
     old = context.ctxt
     context.ctxt = context.Context(vars={n: ty_obj(T) for n, T in case["vars"].items()},
-                                   svars={n: ty_obj(T) for n, T in case["svars"].items()})
+                                   svars={n: ty_obj(T) for n, T in case["svars"].items()},
+                                   defs={n: ty_obj(T) for n, T in case.get("defs", {}).items()})
     try:
         with time_limit(limit):
             if case["forbid"]:
@@ -286,6 +301,53 @@ def run_impl(case, limit):
     except Exception as e:  # noqa
         cT = ("illtyped", type(e).__name__)
     return ("ok", rt, cT)
+
+
+def ty_reserved(T):
+    """does the type use a schematic type variable whose name starts with _t (reserved by infertype.is_internal_type)"""
+    if T is None:
+        return False
+    if T[0] == "sv":
+        return T[1].startswith("_t")
+    return T[0] == "c" and any(ty_reserved(a) for a in T[2])
+
+
+def has_reserved_name(case):
+    def tm(t):
+        k = t[0]
+        if k in ("var", "svar", "const"):
+            return ty_reserved(t[2])
+        if k == "comb":
+            return tm(t[1]) or tm(t[2])
+        if k == "abs":
+            return ty_reserved(t[2]) or tm(t[3])
+        return False
+    return tm(case["skel"]) or any(ty_reserved(T) for d in ("vars", "svars", "defs") for T in case.get(d, {}).values())
+
+
+def head_const(t):
+    while t[0] == "comb":
+        t = t[1]
+    return t if t[0] == "const" else None
+
+
+def set_head(t, T):
+    if t[0] == "comb":
+        return ("comb", set_head(t[1], T), t[2])
+    return ("const", t[1], T)
+
+
+def apply_defs(skel, defs, given=lambda T: T):
+    """what type_infer does first when a definition is parsed (context.ctxt.defs non-empty, term `lhs = rhs`):
+    the head constant of lhs, if it has no type yet, gets the type declared for it"""
+    if not defs:
+        return skel
+    if skel[0] == "comb" and skel[1][0] == "comb" and skel[1][1][0] == "const" and skel[1][1][1] == "equals":
+        lhs = skel[1][2]
+        h = head_const(lhs)
+        if h is not None and h[2] is None and h[1] in defs:
+            return ("comb", ("comb", skel[1][1], set_head(lhs, given(defs[h[1]]))), skel[2])
+    return skel
 
 
 # ====================================================================== reference unifier (independent of holpy)
@@ -342,16 +404,32 @@ def ref_infer(case, sig):
         return ("c", T[1], tuple(inst_sig(a, m) for a in T[2]))
 
     vty, svty = {}, {}
+    defs = case.get("defs", {})
+
+    def given(T):
+        if ty_reserved(T):
+            raise Untypable("reserved")
+        return T
+
+    def inst_def(T, m):
+        """the declared type of the constant being defined: its schematic type variables are instantiated"""
+        if T[0] == "sv":
+            if T[1] not in m:
+                m[T[1]] = fresh()
+            return m[T[1]]
+        if T[0] == "c":
+            return ("c", T[1], tuple(inst_def(a, m) for a in T[2]))
+        return T
 
     def go(t, bd):
         k = t[0]
         if k in ("var", "svar"):
             if t[2] is not None:
-                return (k, t[1], t[2]), t[2]
+                return (k, t[1], given(t[2])), t[2]
             decl = case["vars"] if k == "var" else case["svars"]
             inc = vty if k == "var" else svty
             if t[1] in decl:
-                T = decl[t[1]]
+                T = given(decl[t[1]])
             else:
                 if t[1] not in inc:
                     inc[t[1]] = fresh()
@@ -359,10 +437,13 @@ def ref_infer(case, sig):
             return (k, t[1], T), T
         if k == "const":
             if t[2] is not None:
-                return t, t[2]
-            if t[1] not in sig:
+                return t, given(t[2])
+            if t[1] in sig:
+                T = inst_sig(sig[t[1]], {})
+            elif t[1] in defs:
+                T = inst_def(given(defs[t[1]]), {})
+            else:
                 raise Untypable("noconst")
-            T = inst_sig(sig[t[1]], {})
             return ("const", t[1], T), T
         if k == "comb":
             f, fT = go(t[1], bd)
@@ -371,7 +452,7 @@ def ref_infer(case, sig):
             unify(fT, ("c", "fun", (aT, r)))
             return ("comb", f, a), r
         if k == "abs":
-            T = t[2] if t[2] is not None else fresh()
+            T = given(t[2]) if t[2] is not None else fresh()
             b, bT = go(t[3], [T] + bd)
             return ("abs", t[1], T, b), ("c", "fun", (T, bT))
         if t[1] >= len(bd):
@@ -408,7 +489,7 @@ def ref_infer(case, sig):
         return False
 
     try:
-        tt, _ = go(case["skel"], [])
+        tt, _ = go(apply_defs(case["skel"], defs, given), [])
     except Untypable as e:
         return ("untypable", str(e))
     except RecursionError:
@@ -950,6 +1031,142 @@ def gen_tvsv(rng, sig, n, depth_max):
     return out
 
 
+# ====================================================================== reserved names  ?'_t...
+def gen_reserved(rng, n):
+    """types that use a schematic type variable whose name starts with _t (numeric suffix or not), as annotation
+    of a variable / constant / binder, as declared type of a (schematic) variable, as type of the constant being
+    defined: `is_internal_type` takes these for type_infer's own variables; they must be rejected cleanly"""
+    names = ["_t0", "_t1", "_t7", "_t12", "_tx", "_t", "_t_1", "_t0a", "_table"]
+    eq = lambda a, b: app(C("equals"), a, b)
+    out = []
+
+    def rty():
+        R = ("sv", rng.choice(names))
+        r = rng.random()
+        if r < 0.5:
+            return R
+        if r < 0.65:
+            return ("c", "list", (R,))
+        if r < 0.8:
+            return fun(R, rng.choice([BOOL, NAT, R]))
+        return fun(NAT, R)
+    x, y, f = V("x"), V("y"), V("f")
+    fixed = []
+    for nm in names:
+        R = ("sv", nm)
+        fixed += [
+            ("annot-var", eq(("var", "x", R), y), {}, {}, {}),
+            ("annot-var-self", eq(("var", "x", R), ("var", "x", R)), {}, {}, {}),
+            ("annot-var-late", conj([app(f, x), app(f, y), eq(("var", "z", R), x)]), {}, {}, {}),
+            ("annot-const", eq(C("nil", ("c", "list", (R,))), y), {}, {}, {}),
+            ("annot-binder", ("abs", "u", R, app(C("equals"), ("bound", 0), x)), {}, {}, {}),
+            ("annot-svar", eq(("svar", "s", R), y), {}, {}, {}),
+            ("declared-var", conj([eq(x, y), y]), {"x": R}, {}, {}),
+            ("declared-svar", eq(("svar", "s", None), y), {}, {"s": R}, {}),
+            ("declared-unused", eq(x, C("zero", NAT)), {"unused": R}, {}, {}),       # never looked up: accepted
+            ("defs-head", eq(app(C("dfn"), x), x), {}, {}, {"dfn": fun(R, R)}),
+            ("defs-rec", eq(app(C("dfn"), x), app(C("dfn"), app(C("dfn"), x))), {}, {}, {"dfn": fun(R, R)}),
+        ]
+    for k, t, v, sv, df in fixed:
+        out.append({"kind": "reserved:" + k, "skel": t, "vars": v, "svars": sv, "defs": df, "forbid": True})
+    while len(out) < n:
+        k = rng.randrange(5)
+        T1, T2 = rty(), rty()
+        if k == 0:
+            t, v, sv = conj([eq(("var", "x", T1), y), eq(("var", "z", T2), ("var", "w", None)), app(f, x), app(f, y)]), {}, {}
+        elif k == 1:
+            t, v, sv = eq(app(f, x), y), {"x": T1, "f": fun(T1, T2)}, {}
+        elif k == 2:
+            t, v, sv = eq(("svar", "s", None), app(("abs", "u", T2, ("bound", 0)), y)), {}, {"s": T1}
+        elif k == 3:
+            t, v, sv = app(C("all"), ("abs", "u", T1, eq(("bound", 0), ("var", "y", T2)))), {}, {}
+        else:
+            t, v, sv = eq(app(C("cons"), ("var", "a", T1), C("nil")), ("var", "l", ("c", "list", (T2,)))), {}, {}
+        out.append({"kind": "reserved:random", "skel": t, "vars": v, "svars": sv, "defs": {}, "forbid": rng.random() < 0.9})
+    return out
+
+
+# ====================================================================== definitions being parsed: context.ctxt.defs
+def gen_defs(rng, sig, n):
+    """what server/items.py does for a definition / recursive function: parse `f x1 ... xn = rhs` under
+    Context(defs={f: T}).  f is a new name or (overloaded constants) a name of the signature; T is monomorphic,
+    over rigid 'a, or over ?'a (then the recursive occurrences are instantiated); rhs may call f."""
+    g = TermGen(rng, sig)
+    eq = lambda a, b: app(C("equals"), a, b)
+    x, y = V("x"), V("y")
+    NN = fun(NAT, NAT)
+    hand = [
+        ("rec", eq(app(C("dfn"), x), app(C("dfn"), app(C("dfn"), x))), {"dfn": NN}),
+        ("base", eq(app(C("dfn"), C("zero")), C("one")), {"dfn": NN}),
+        ("head-annotated-same", eq(app(C("dfn", NN), x), x), {"dfn": NN}),
+        ("head-annotated-other", eq(app(C("dfn", fun(BOOL, BOOL)), x), x), {"dfn": NN}),
+        ("head-annotated-other-2", eq(app(C("dfn", NN), x), app(C("Suc"), x)), {"dfn": fun(BOOL, BOOL)}),
+        ("overloaded", eq(app(C("plus"), x, y), app(C("plus"), y, x)), {"plus": fun(NAT, NAT, NAT)}),
+        ("overloaded-rec-other-type", eq(app(C("plus"), x, y), app(C("of_nat"), app(C("plus"), C("zero", NAT), C("one", NAT)))),
+         {"plus": fun(("c", "int", ()), ("c", "int", ()), ("c", "int", ()))}),
+        ("rigid-tvar", eq(app(C("dfn"), x), x), {"dfn": fun(("tv", "a"), ("tv", "a"))}),
+        ("rigid-tvar-clash", eq(app(C("dfn"), x), app(C("dfn"), C("zero", NAT))), {"dfn": fun(("tv", "a"), ("tv", "a"))}),
+        ("stvar-instantiated", eq(app(C("dfn"), x), conj([app(C("dfn"), C("zero", NAT)), app(C("dfn"), C("true"))])),
+         {"dfn": fun(("sv", "a"), BOOL)}),
+        ("stvar-head-rigid", eq(app(C("dfn"), C("zero", NAT)), C("true")), {"dfn": fun(("sv", "a"), BOOL)}),
+        ("wrong-arg-count", eq(app(C("dfn"), x, y), x), {"dfn": NN}),
+        ("not-an-equation", app(C("dfn"), x), {"dfn": fun(NAT, BOOL)}),
+        ("head-not-const", eq(app(x, y), app(C("dfn"), y)), {"dfn": NN}),
+        ("lhs-is-const", eq(C("dfn"), C("zero")), {"dfn": NAT}),
+        ("three-arg-equals", app(C("equals"), app(C("dfn"), x), x, y), {"dfn": NN}),
+        ("other-name-in-defs", eq(app(C("dfn"), x), app(C("other"), x)), {"dfn": NN, "other": fun(NAT, BOOL)}),
+        ("unknown-const", eq(app(C("dfn"), x), app(C("no_such_constant"), x)), {"dfn": NN}),
+        ("under-determined", eq(app(C("dfn"), x), C("nil")), {"dfn": fun(NAT, ("c", "list", (("sv", "a"),)))}),
+    ]
+    out = [{"kind": "defs:" + k, "skel": t, "vars": {}, "svars": {}, "defs": d, "forbid": True} for k, t, d in hand]
+    while len(out) < n:
+        flavour = rng.choice(["mono", "mono", "tvar", "stvar"])
+        nargs = rng.randint(0, 3)
+
+        def aty():
+            T = g.rtype(1)
+            while has_tyvar(T):
+                T = g.rtype(1)
+            return T
+        args = [aty() for _ in range(nargs)]
+        R = aty()
+        if flavour == "tvar" and nargs:
+            args[0] = rng.choice([("tv", "a"), ("c", "list", (("tv", "a"),))])
+            if rng.random() < 0.5:
+                R = ("tv", "a")
+        D = fun(*(args + [R]))
+        Dhead = D
+        if flavour == "stvar" and nargs:
+            # declared over ?'a: the head keeps ?'a, recursive calls are instances
+            args_decl = list(args)
+            args_decl[0] = ("sv", "a")
+            Dhead = fun(*(args_decl + [R]))
+        name = rng.choice(["dfn", "dfn", "dfn2", "plus", "nil"]) if flavour == "mono" else "dfn"
+        hargs = list(args)
+        if Dhead is not D:
+            hargs[0] = ("sv", "a")
+        g.vars, g.svars, g.nv = {}, {}, 0
+        xs = [("var", "x%d" % i, T) for i, T in enumerate(hargs)]
+        lhs = app(("const", name, Dhead), *xs)
+        for v in xs:
+            g.vars[v[1]] = v[2]
+        if rng.random() < 0.5 and nargs:
+            # recursive call (through the fallback of the constant case when the name is not in the signature)
+            rargs = [g.gen(T, [], rng.randint(0, 2)) for T in args]
+            rD = D
+            rhs = app(("const", name, rD), *rargs)
+        else:
+            rhs = g.gen(R, [], rng.randint(0, 2))
+        orig = app(("const", "equals", fun(R, R, BOOL)), lhs, rhs)
+        if name in sig and not TermGen.match(sig[name], D, {}):
+            continue                    # an overloaded constant is defined at an instance of its declared type
+        for lvl in ((1, 1, 1), (1, 0, 1), (0.5, 0.5, 1)):
+            sk = erase(orig, rng, *lvl)
+            out.append({"kind": "defs:gen-" + flavour, "orig": orig, "skel": sk, "vars": {}, "svars": {}, "defs": {name: Dhead},
+                        "forbid": True, "declared": False, "must_recover": False})
+    return out
+
+
 # ====================================================================== histories: several theories in one process
 LIB_THEORIES = ["logic_base", "logic", "nat", "set", "list", "function", "int"]
 REDECLARABLE = ["plus", "zero", "nil", "cons", "member", "conj", "neg", "Suc", "append", "union", "true", "one", "times", "empty_set"]
@@ -1070,7 +1287,7 @@ def run_histories(ctx, rng, nhist, limit=5):
                         res = oracle(ctx, case, run_impl(case, limit), cur)
                         ctx.case(("history", hid, case_key(case)), nontrivial=True)
                         ctx.count("history:%s%s:%s" % (step["theory"].split(":")[0], "+fresh" if step["fresh"] else "",
-                                                       res[0] if res[0] != "error" else res[1].split(":")[0]))
+                                                       res[0] if res[0] != "error" else res[1].replace("tie:", "")))
                         batch.append(case)
                         batch_sigs.append(cur)
                         batch_res.append(res)
@@ -1106,13 +1323,16 @@ def replay_history(ctx, history, limit=60):
 
 # ====================================================================== oracle
 def case_key(case):
-    return "%s|%s|%s|%s" % (tm_str(case["skel"]), sorted((k, ty_str(v)) for k, v in case["vars"].items()),
-                            sorted((k, ty_str(v)) for k, v in case["svars"].items()), "" if case["forbid"] else "allow-internal")
+    return "%s|%s|%s|%s%s" % (tm_str(case["skel"]), sorted((k, ty_str(v)) for k, v in case["vars"].items()),
+                              sorted((k, ty_str(v)) for k, v in case["svars"].items()), "" if case["forbid"] else "allow-internal",
+                              "|defs=%s" % sorted((k, ty_str(v)) for k, v in case["defs"].items()) if case.get("defs") else "")
 
 
 def replay_dict(case, res, extra=None):
     d = {"kind": case["kind"], "skel": case["skel"], "vars": case["vars"], "svars": case["svars"], "forbid": case["forbid"],
          "readable": tm_str(case["skel"]), "result": res}
+    if case.get("defs"):
+        d["defs"] = case["defs"]
     if "orig" in case:
         d["orig"] = case["orig"]
         d["declared"] = case.get("declared")
@@ -1136,6 +1356,12 @@ def oracle(ctx, case, res, sig, limit_confirm=60):
     skel = case["skel"]
 
     def viol(k, what, rp):
+        dfs = case.get("defs")
+        if dfs and skel[0] == "comb" and skel[1][0] == "comb":
+            h = head_const(skel[1][2])
+            if h is not None and h[2] is not None and h[1] in dfs and h[2] != dfs[h[1]]:
+                # one defect class: the annotation on the head of a definition's lhs is replaced by the declared type
+                k = "defs-head-annotation-overwritten"
         if "history" in case:
             # one class per kind of failure: what goes wrong depends on the preceding theory switches, not on the skeleton
             k = "history:" + k.split(":")[0]
@@ -1157,13 +1383,26 @@ def oracle(ctx, case, res, sig, limit_confirm=60):
     ref = ref_infer(case, sig)
     if has_arity_mismatch(case):
         # one defect class: the same type constructor applied to different numbers of arguments
-        if (res[0] == "error" and res[1] not in OWN_ERRORS) or (res[0] == "ok" and isinstance(res[2], tuple) and res[2][:1] == ("illtyped",)):
-            viol("type-constructor-arity-mismatch", "type_infer(%s): %s" % (tm_str(skel), res[1] if res[0] == "error" else
+        if (res[0] == "error" and not is_own_error(res[1])) or (res[0] == "ok" and isinstance(res[2], tuple) and res[2][:1] == ("illtyped",)):
+            # D5: the key says how it fails (exception class, or an ill-typed result)
+            how = res[1].split(":", 1)[1] if res[0] == "error" else "ill-typed-result"
+            viol("type-constructor-arity-mismatch:" + how, "type_infer(%s): %s" % (tm_str(skel), res[1] if res[0] == "error" else
                           "returns a term that does not type-check"), replay_dict(case, res))
+            return res
+    if has_reserved_name(case):
+        # one defect class: a user type variable ?'_t... is taken for one of type_infer's internal variables
+        # (a declared type that is never looked up does not enter inference: the reference tells)
+        wrong = (res[0] == "error" and not is_own_error(res[1])) or (res[0] == "ok" and ref == ("untypable", "reserved"))
+        if wrong:
+            how = res[1].split(":", 1)[1] if res[0] == "error" else "accepted"
+            viol("reserved-type-variable-name:" + how, "type_infer(%s) with vars %s: %s; a type that uses a name reserved for internal type "
+                 "variables must be rejected with TypeInferenceException" % (tm_str(skel), {k: ty_str(v) for k, v in case["vars"].items()},
+                                                                           res[1] if res[0] == "error" else "returns " + tm_str(res[1])),
+                 replay_dict(case, res))
             return res
     if res[0] == "error":
         cls = res[1]
-        if cls not in OWN_ERRORS:
+        if not is_own_error(cls):
             if ref == ("untypable", "occurs"):
                 # one defect class: a cyclic type equation escapes the occurs check and the final loop diverges
                 viol("occurs-check-escaped", "cyclic type not detected, type_infer ends with %s on %s" % (cls, tm_str(skel)),
@@ -1173,22 +1412,26 @@ def oracle(ctx, case, res, sig, limit_confirm=60):
                           "type_infer neither returns nor fails with its own error (%s) on %s" % (cls, tm_str(skel)),
                           replay_dict(case, res))
             return res
-        if "orig" in case and cls != "unspecified":
-            viol("erasure-rejected:%s:%s" % (cls, key),
-                          "erasure of a well-typed term rejected with '%s': %s" % (cls, tm_str(skel)), replay_dict(case, res))
+        # which own error it is can only be read off the message; what is judged is whether an error is justified:
+        # the reference unifier says whether the skeleton has a fully determined typing (then an error is wrong),
+        # is typable but under-determined, or untypable (then any own error is right)
+        if "orig" in case and ref[0] != "under":
+            viol("erasure-rejected:%s:%s" % (err_class(cls), key),
+                          "erasure of a well-typed term with a fully determined typing rejected with '%s': %s" % (cls, tm_str(skel)),
+                          replay_dict(case, res))
         elif case.get("must_recover"):
             viol("not-recovered:%s" % key, "constant and binder types kept, variables declared, yet type_infer reports '%s' on %s"
                           % (cls, tm_str(skel)), replay_dict(case, res))
         elif case["forbid"] and ref[0] == "ok":
-            viol("typable-rejected:%s:%s" % (cls, key), "skeleton has a fully determined typing but type_infer reports '%s': %s"
-                          % (cls, tm_str(skel)), replay_dict(case, res, {"reference": ref[1]}))
-        elif case["forbid"] and ref[0] == "under" and cls != "unspecified":
-            viol("typable-rejected:%s:%s" % (cls, key), "skeleton is typable (under-determined) but type_infer reports '%s': %s"
+            viol("typable-rejected:%s:%s" % (err_class(cls), key), "skeleton has a fully determined typing but type_infer reports '%s': %s"
                           % (cls, tm_str(skel)), replay_dict(case, res, {"reference": ref[1]}))
         return res
     # ---- a term was returned
     rt, cT = res[1], res[2]
     bad = []
+    defs = case.get("defs", {})
+    skel0 = skel
+    skel = apply_defs(skel, defs)        # the head of a definition's lhs counts as annotated with its declared type
     if isinstance(cT, tuple) and cT and cT[0] == "illtyped":
         bad.append("result does not type-check: %s" % cT[1])
     if shape(rt) != shape(skel):
@@ -1211,10 +1454,18 @@ def oracle(ctx, case, res, sig, limit_confirm=60):
                 if seen.setdefault((kind, name), rT) != rT:
                     bad.append("%s %s gets two types: %s and %s" % (kind, name, ty_str(seen[(kind, name)]), ty_str(rT)))
             elif kind == "const":
-                m = {}
-                if name not in sig or not TermGen.match(sig[name], rT, m):
-                    bad.append("constant %s :: %s is not an instance of its declared type" % (name, ty_str(rT)))
+                if name in sig:
+                    if not TermGen.match(sig[name], rT, {}):
+                        bad.append("constant %s :: %s is not an instance of its declared type" % (name, ty_str(rT)))
+                elif name not in defs or not match_sv(defs[name], rT, {}):
+                    bad.append("constant %s :: %s is not an instance of the type given for it" % (name, ty_str(rT)))
         walk2(skel, rt, chk)
+        if skel is not skel0 and shape(rt) == shape(skel0):
+            # annotations of the ORIGINAL skeleton must survive the defs step too (fix C08-4)
+            def chk0(kind, name, sT, rT):
+                if sT is not None and rT is not None and sT != rT:
+                    bad.append("annotation %s of %s %s changed to %s" % (ty_str(sT), kind, name, ty_str(rT)))
+            walk2(skel0, rt, chk0)
         if case["forbid"]:
             left = set()
 
@@ -1225,6 +1476,11 @@ def oracle(ctx, case, res, sig, limit_confirm=60):
             if left:
                 bad.append("internal type variables left: %s" % sorted(left))
     if bad:
+        h = head_const(skel0[1][2]) if (defs and skel0[0] == "comb" and skel0[1][0] == "comb") else None
+        if h is not None and h[2] is not None and h[1] in defs and any(b.startswith("annotation") for b in bad):
+            viol("defs-head-annotation-overwritten", "type_infer(%s) under defs %s = %s: %s" % (
+                tm_str(skel0), {k: ty_str(v) for k, v in defs.items()}, tm_str(rt), "; ".join(bad)), replay_dict(case, res, {"why": bad}))
+            return res
         viol("bad-result:" + key, "type_infer(%s) = %s: %s" % (tm_str(skel), tm_str(rt), "; ".join(bad)),
                       replay_dict(case, res, {"why": bad}))
         return res
@@ -1238,6 +1494,20 @@ def oracle(ctx, case, res, sig, limit_confirm=60):
         viol("accepted-%s:%s" % (ref[0], key), "type_infer(%s) = %s but the reference says %s" % (tm_str(skel), tm_str(rt), ref[0]),
                       replay_dict(case, res, {"reference": ref[1] if ref[0] == "under" else None}))
     return res
+
+
+def match_sv(P, T, m):
+    """match a `defs` type P (its schematic type variables are the pattern variables) against T"""
+    if P[0] == "sv":
+        if P[1] in m:
+            return m[P[1]] == T
+        m[P[1]] = T
+        return True
+    if P[0] != T[0] or P[1] != T[1]:
+        return False
+    if P[0] == "c":
+        return len(P[2]) == len(T[2]) and all(match_sv(x, y, m) for x, y in zip(P[2], T[2]))
+    return True
 
 
 def has_arity_mismatch(case):
@@ -1263,7 +1533,7 @@ def has_arity_mismatch(case):
             ty(t[2])
             tm(t[3])
     tm(case["skel"])
-    for T in list(case["vars"].values()) + list(case["svars"].values()):
+    for T in list(case["vars"].values()) + list(case["svars"].values()) + list(case.get("defs", {}).values()):
         ty(T)
     for n, k in (("fun", 2), ("bool", 0), ("nat", 0), ("int", 0), ("real", 0), ("list", 1), ("set", 1)):
         if ar.get(n, k) != k:
@@ -1275,10 +1545,7 @@ def canon_impl(res):
     if res[0] == "ok":
         return ("ok", res[1])
     if res[0] == "error":
-        c = res[1]
-        if c.startswith("crash:"):
-            c = "crash"
-        return ("error", c)
+        return ("error", err_class(res[1]))       # tie | noconst | crash
     return res
 
 
@@ -1290,7 +1557,7 @@ def check_cases(ctx, cases, sig, label, limit=5):
         results.append(res)
         ctx.case(case_key(case), nontrivial=size(case["skel"]) >= 4)
         ctx.count("%s:%s" % (case["kind"].split(":")[0] + (":" + case["kind"].split(":")[1] if case["kind"].startswith("erasure") else ""),
-                             res[0] if res[0] != "error" else res[1].split(":")[0]))
+                             res[0] if res[0] != "error" else res[1].replace("tie:", "")))
     lines = [request_line(c, sig) for c in cases]
     out = ctx.lean_driver(EXE, lines) if lines else []
     if out is None or (lines and out and out[0] == "bad-op" and all(o == "bad-op" for o in out)):
@@ -1306,8 +1573,11 @@ def compare_model(ctx, cases, results, out, label):
         want = canon_impl(res)
         if want[0] == "timeout":
             want = ("error", "fuel")
-        if m[0] == "error" and m[1] in ("crash-key", "crash-index", "crash-value"):
-            m = ("error", "crash")
+        kind = m[1] if m[0] == "error" else None
+        if m[0] == "error" and m[1] in MODEL_TIE:
+            m = ("error", "tie")                  # compared on the exception class only
+        if kind in MODEL_TIE and res[0] == "error" and res[1].startswith("tie:") and res[1] != "tie:" + kind:
+            ctx.count("message-kind-differs-from-model")      # informative only
         if m != want:
             ndis += 1
             ctx.coverage["disagreements_checked"] += 1
@@ -1335,7 +1605,8 @@ def load_corpus(ctx):
     out = []
     for r in raw:
         out.append({"kind": r["kind"], "skel": from_json(r["skel"]), "vars": {k: from_json(v) for k, v in r.get("vars", {}).items()},
-                    "svars": {k: from_json(v) for k, v in r.get("svars", {}).items()}, "forbid": r.get("forbid", True)})
+                    "svars": {k: from_json(v) for k, v in r.get("svars", {}).items()}, "forbid": r.get("forbid", True),
+                    "defs": {k: from_json(v) for k, v in r.get("defs", {}).items()}})
     return out
 
 
@@ -1351,6 +1622,9 @@ def run(ctx):
         "EmptyTheory() / `with fresh_theory()` + add_term_sig of generated constants and of library constant names re-declared at other "
         "types), erasures of well-typed terms over the signature current at each step, judged against that signature; (g) mixed kinds of "
         "type variables: declared variables over 'a / 'b and schematic variables over ?'a / ?'b with equal names, a TVar called _t0, x and ?x "
+        "; (h) reserved names: ?'_t0, ?'_t7, ?'_tx, ?'_t, ?'_table ... in annotations of variables / constants / binders, in declared types "
+        "and in ctxt.defs; (i) definitions being parsed: `f x1..xn = rhs` under Context(defs={f: T}) as server/items.py does, f new or an "
+        "overloaded constant of the signature, T monomorphic / over rigid 'a / over ?'a, recursive calls, annotated heads, malformed shapes "
         "with the same name, in hand-made clashes and in well-typed terms where one declared variable has 'a and ?'a exchanged. "
         "Non-trivial = skeleton has at least 4 nodes; distinct by skeleton + context.")
     proofs_ok = ctx.lean_props(["Holpy.C08.Props"], exes=[EXE])
@@ -1361,9 +1635,12 @@ def run(ctx):
         "kernel Term.checked_get_type as the judge of 'type-checks'",
         "the correspondence between lean/Holpy/C08/Model.lean and syntax/infertype.py is by differential runs only"]
     ctx.assumptions += [
-        "annotations, declared types and signature types contain no schematic type variable whose name starts with '_t' "
-        "(infertype reserves these names; `?'_t0` in user input collides with its internal variables)",
-        "skeletons are closed (no loose bound variable) and context.ctxt.defs is empty (the definition-parsing path is not modelled)",
+        "skeletons are closed (no loose bound variable); signature types contain no schematic type variables",
+        "'one type per variable' is about the occurrences whose type is missing: an annotated occurrence (x::T) keeps T and is, by the "
+        "kernel's identity of variables (name + type), a different variable from an x of another type",
+        "which TypeInferenceException is raised (occurs / clash / not a function / under-determined / reserved) is read off the message "
+        "text for the histogram only; verdicts and the comparison with the model use the exception class, and whether an error is "
+        "justified is decided by the reference unifier (fully determined typing exists: error is a violation)",
         "termination of unify is not proved (fuel); only the final substitution loop is proved to terminate",
         "the model takes the signature as a parameter (Ctx.sig): that type_infer reads the signature of the theory current at the time "
         "of the call (no state kept between calls or theories) is checked by the history stream, not proved"]
@@ -1377,6 +1654,10 @@ def run(ctx):
     have_model &= run_histories(ctx, ctx.rng("histories"), ctx.scale(120, 1500))
     tv = gen_tvsv(ctx.rng("tvsv"), sig, ctx.scale(300, 5000), 3)
     have_model &= check_cases(ctx, tv, sig, "tvsv")
+    rn = gen_reserved(ctx.rng("reserved"), ctx.scale(200, 3000))
+    have_model &= check_cases(ctx, rn, sig, "reserved")
+    df = gen_defs(ctx.rng("defs"), sig, ctx.scale(300, 6000))
+    have_model &= check_cases(ctx, df, sig, "defs")
     cyc = gen_cycles(ctx.rng("cycles"), ctx.tier == "thorough")
     have_model &= check_cases(ctx, cyc, sig, "cycles")
     er = gen_erasures(ctx.rng("erasures"), sig, ctx.scale(500, 15000), 4)
@@ -1404,7 +1685,8 @@ def replay(ctx, rp):
             print("still fails:", v[1])
         return bool(ctx.violations)
     case = {"kind": r["kind"], "skel": from_json(r["skel"]), "vars": {k: from_json(v) for k, v in r["vars"].items()},
-            "svars": {k: from_json(v) for k, v in r["svars"].items()}, "forbid": r["forbid"]}
+            "svars": {k: from_json(v) for k, v in r["svars"].items()}, "forbid": r["forbid"],
+            "defs": {k: from_json(v) for k, v in r.get("defs", {}).items()}}
     if "orig" in r:
         case["orig"] = from_json(r["orig"])
         case["declared"] = r.get("declared")
@@ -1421,8 +1703,10 @@ def replay(ctx, rp):
 
 MANIFEST = {
     "text": "Lean theorems about an executable model of type_infer (uf / reach / union / unify / infer / final loop, with the fixes "
-            "C08-1 and C08-2): infer_sound (a returned term type-checks, has the skeleton's shape, keeps annotations and declared types, one type "
-            "per unannotated variable name, constants at instances of their signature type, no internal type variable left), unify_sound "
+            "C08-1 .. C08-4): infer_sound, without hypotheses (a returned term type-checks, has the skeleton's shape, keeps every annotation and "
+            "declared type, gives the occurrences of a variable whose type is missing one type per name, constants at instances of their "
+            "signature type or of the type ctxt.defs gives for the constant being defined, no internal type variable left; a given type using a "
+            "reserved name ?'_t... is rejected with type_infer's own error), unify_sound "
             "(uf solves every equation unified so far), erasure_recovery_partial (variable types dropped, variables declared: the original term "
             "comes back), union_preserves_reach + infer_preserves_reach + final_loop_terminates (the final "
             "substitution loop terminates on every state the traversal can reach). Model tied to syntax/infertype.py by differential runs on "
@@ -1432,13 +1716,25 @@ MANIFEST = {
     "note": "Trusted: Lean kernel, propext/Classical.choice/Quot.sound, the generators and reference unifier in harness/props/c08.py, "
             "kernel Term.checked_get_type. Partial: principality (recovers the original or reports under-determined) is checked by the "
             "reference unifier on generated inputs, not proved; termination of unify is not proved (fuel) - only the final loop; "
-            "context.ctxt.defs (definition parsing) and infer_printed_type are not modelled; reserved names: a user type variable "
-            "called ?'_tN collides with type_infer's internal variables (KeyError / wrong type), excluded by hypothesis; an annotated "
-            "occurrence (x::T) is a distinct variable from an unannotated x (kernel identity name+type) and may get another type. "
+            "infer_printed_type is not modelled. Scope of 'gives all occurrences of a variable one type': the occurrences WITHOUT annotation "
+            "(theorem: Respects.varFree / varDecl); an annotated occurrence (x::T) keeps T and, kernel variables being identified by name "
+            "AND type, is a different variable from an x of another type - parse_term(\"(x::nat) = 0 & x\") returns x at nat and at bool; "
+            "this is what the code does on purpose (the printer relies on it for legal terms with one name at two types) and is stated "
+            "in the theorem comment, not treated as a violation. The kind of TypeInferenceException is not compared (message text only). "
             "History independence (each call sees the signature of the current theory only) is tested by in-process theory-switch histories.",
     "design_ref": "DESIGN.md 4/C08",
 }
 FINDINGS = [
+    {"status": "fixed", "key": "reserved-type-variable-name:KeyError", "commit": "fixes/C08-3.patch",
+     "what": "parse_term(\"(x::?'_t1) = (y::?'_t0) & f x & f y\"): KeyError - a user type variable whose name starts with _t is taken for "
+             "one of type_infer's internal variables (is_internal_type is name.startswith('_t'))"},
+    {"status": "fixed", "key": "reserved-type-variable-name:ValueError", "commit": "fixes/C08-3.patch",
+     "what": "parse_term(\"(x::?'_tx) = y\"): ValueError from int('x')"},
+    {"status": "fixed", "key": "reserved-type-variable-name:accepted", "commit": "fixes/C08-3.patch",
+     "what": "with x :: ?'_t0 declared in the context, `x = y & y` is accepted and gives x the type bool (declared type not respected)"},
+    {"status": "fixed", "key": "defs-head-annotation-overwritten", "commit": "fixes/C08-4.patch",
+     "what": "under Context(defs={f: nat => nat}) the annotation in `(f::bool => bool) x = x` is replaced by nat => nat "
+             "(or a typable definition is rejected with a clash)"},
     {"status": "fixed", "key": "occurs-check-escaped", "commit": "9a9993c",
      "what": "type_infer on `x y & y z & z x` (any occurs-check cycle through a third variable): union() updated reach only for the merged "
              "class, the cycle was not detected and the final substitution loop grew the types until RecursionError"},
